@@ -66,7 +66,14 @@ fn generate(seed: u64, tier: Tier) -> Value {
             "target_style": if r.chance(1, 6) { *r.pick(&["plain", "empty", "uni_random", "long_uni", "uni_at_36"]) } else { "none" },
             "honest_after": r.chance(1, 3)}));
     }
-    json!({"property": "C05", "seed": seed, "net_seed": r.below(1 << 40), "n": 2, "topology": "mesh", "edges": [[0, 1]],
+    // one run in ten measures what the node RETAINS: the same kind of frame 160 times, live bytes compared
+    // between the 40th and the last frame
+    let retention = if r.chance(1, 10) {
+        steps.clear();
+        json!({"kind": *r.pick(&["put_too_big", "put_ok_one_key", "resp_nodes", "resp_value", "rr_unknown_response", "rr_request", "app_topic", "random_bytes", "find_node_keys", "get_keys", "stale_timestamp", "undecodable_dht", "oversize_dht", "long_ids"]),
+               "n": 160, "size": *r.pick(&[2_000u64, 20_000, 60_000]), "salt": r.below(1 << 40)})
+    } else { Value::Null };
+    json!({"property": "C05", "seed": seed, "net_seed": r.below(1 << 40), "n": 2, "topology": "mesh", "edges": [[0, 1]], "retention": retention,
            "ident": if r.chance(1, 2) { "a" } else { "b" }, "k": *r.pick(&[8u64, 20, 32]), "timeout_ms": 1000,
            "nodes": (0..2).map(|i| json!({"tid_salt": r.below(1 << 40), "ip": [10, 1, r.below(250), 1 + i], "port": 9000 + i})).collect::<Vec<_>>(),
            "faults": {"silence": [], "slow": [], "drops": [], "dial": []}, "liars": [], "latency_ms": *r.pick(&[1u64, 5]), "jitter_ms": *r.pick(&[0u64, 5]),
@@ -179,6 +186,67 @@ fn execute(sc: &Value) -> RunReport {
         let (mut surfaced, mut window_rejected, mut oversized, mut jumps) = (0u64, 0u64, 0u64, 0u64);
         let (mut max_big, mut max_peak) = (0u64, 0u64);
 
+        if !sc["retention"].is_null() {
+            let ret = &sc["retention"];
+            let kind = ret["kind"].as_str().unwrap_or("random_bytes").to_string();
+            let n = ret["n"].as_u64().unwrap_or(160);
+            let size = ret["size"].as_u64().unwrap_or(20_000) as usize;
+            let mut sr = Rng::new(ret["salt"].as_u64().unwrap_or(0) ^ seed);
+            let (hidx, htid) = (hostile[0].0, hostile[0].1.clone());
+            net.set_recording(false);
+            let mut live_at_warm = 0i64;
+            let mut sent_bytes = 0u64;
+            for i in 0..n {
+                let id = format!("ret-{i}-{}", if kind == "long_ids" { "x".repeat(size.min(40_000)) } else { String::new() });
+                let mk = |mt: DhtMessageType, payload: DhtNetworkOperation, result: Option<DhtNetworkResult>, ts: u64| DhtNetworkMessage {
+                    message_id: id.clone(), source: htid.clone(), target: None, message_type: mt, payload, result, timestamp: ts, ttl: 7, hop_count: 0 };
+                let key = key_for(1_000_000 + i);
+                let (protocol, payload, ts): (String, Vec<u8>, u64) = match kind.as_str() {
+                    "put_too_big" => ("/dht/1.0.0".into(), postcard::to_stdvec(&mk(DhtMessageType::Request, DhtNetworkOperation::Put { key, value: sr.bytes(size.clamp(513, 60_000)) }, None, wall)).unwrap_or_default(), wall),
+                    "put_ok_one_key" => ("/dht/1.0.0".into(), postcard::to_stdvec(&mk(DhtMessageType::Request, DhtNetworkOperation::Put { key: key_for(999_999), value: sr.bytes(512) }, None, wall)).unwrap_or_default(), wall),
+                    "resp_nodes" => ("/dht/1.0.0".into(), postcard::to_stdvec(&mk(DhtMessageType::Response, DhtNetworkOperation::FindNode { key }, Some(DhtNetworkResult::NodesFound { key, nodes: (0..(size / 120).min(500)).map(|j| DHTNode { peer_id: hex::encode(sr.arr32()), address: format!("{}.{}.1.1:9000", 1 + j % 200, j % 250), distance: None, reliability: 1.0, cached_dht_key: None }).collect() }), wall)).unwrap_or_default(), wall),
+                    "resp_value" => ("/dht/1.0.0".into(), postcard::to_stdvec(&mk(DhtMessageType::Response, DhtNetworkOperation::Get { key }, Some(DhtNetworkResult::GetSuccess { key, value: sr.bytes(size.min(60_000)), source: htid.clone() }), wall)).unwrap_or_default(), wall),
+                    "rr_unknown_response" => (format!("/rr/ret-{i}"), verif_hooks::encode_envelope(&format!("unknown-{i}"), true, sr.bytes(size)), wall),
+                    "rr_request" => ("/rr/ret".to_string(), verif_hooks::encode_envelope(&format!("req-{i}"), false, sr.bytes(size)), wall),
+                    "app_topic" => (format!("ret-topic-{i}"), sr.bytes(size), wall),
+                    "find_node_keys" | "long_ids" => ("/dht/1.0.0".into(), postcard::to_stdvec(&mk(DhtMessageType::Request, DhtNetworkOperation::FindNode { key }, None, wall)).unwrap_or_default(), wall),
+                    "get_keys" => ("/dht/1.0.0".into(), postcard::to_stdvec(&mk(DhtMessageType::Request, DhtNetworkOperation::Get { key }, None, wall)).unwrap_or_default(), wall),
+                    "stale_timestamp" => ("/dht/1.0.0".into(), postcard::to_stdvec(&mk(DhtMessageType::Request, DhtNetworkOperation::Put { key, value: sr.bytes(512) }, None, wall - 10_000)).unwrap_or_default(), wall - 10_000),
+                    "undecodable_dht" => ("/dht/1.0.0".into(), sr.bytes(size.min(60_000)), wall),
+                    "oversize_dht" => ("/dht/1.0.0".into(), sr.bytes(70_000), wall),
+                    _ => (String::new(), Vec::new(), wall),
+                };
+                let frame = if kind == "random_bytes" { sr.bytes(size) } else { verif_hooks::encode_wire(&protocol, payload, &htid, ts) };
+                if i >= 40 { sent_bytes += frame.len() as u64; }
+                net.inject(hidx, victim.idx, frame, 0);
+                tokio::time::sleep(Duration::from_millis(60)).await;
+                while events.try_recv().is_ok() {}
+                for h in hostile.iter_mut() { while h.2.try_recv().is_ok() {} }
+                if i == 39 {
+                    tokio::time::sleep(Duration::from_millis(2_500)).await;
+                    live_at_warm = alloc::live();
+                }
+                ctx.ops += 1;
+            }
+            // handlers, request timeouts and sweeps have all run out two request timeouts later
+            tokio::time::sleep(Duration::from_millis(2_500)).await;
+            while events.try_recv().is_ok() {}
+            for h in hostile.iter_mut() { while h.2.try_recv().is_ok() {} }
+            let live_end = alloc::live();
+            net.set_recording(true);
+            let growth = (live_end - live_at_warm).max(0) as u64;
+            ctx.probe("retention_run");
+            ctx.fault("repeated_hostile_frames");
+            ev!("retention kind={kind} frames={} bytes_sent_after_warmup={sent_bytes}", n - 40);
+            // 120 frames after the warm-up: at most 16 KiB + 1/16 of what was sent may stay behind
+            // (a stored 512-byte value under one key is already there at warm-up)
+            let allowed = 16 * 1024 + sent_bytes / 16;
+            if growth > allowed {
+                ctx.violate("C05.retain.memory_grows_with_handled_frames", kind.clone(), format!("after a warm-up of 40 frames, 120 more `{kind}` frames ({sent_bytes} bytes) left {growth} more live bytes behind (allowed {allowed})"));
+            }
+            for p in take_panics() { ctx.violate("C05.panic.in_message_handling", kind.clone(), format!("retention run: {}", p.chars().take(300).collect::<String>())); }
+            surfaced = 1; window_rejected = 1; oversized = 1; jumps = 1; // the non-trivial rule of this family is its own
+        }
         for st in sc["steps"].as_array().cloned().unwrap_or_default() {
             let i = st["i"].as_u64().unwrap_or(0);
             let kind = st["kind"].as_str().unwrap_or("random");
